@@ -145,9 +145,29 @@ class Ctx(object):
             self.decided[c.get_id()] = not val
             self.keep.append(c)
 
+    def _fresh_check(self, extra):
+        """feasibility by a fresh QF_UFBV solver (when the incremental core gives up)"""
+        s2 = z3.SolverFor("QF_UFBV")
+        s2.set("timeout", self.timeout_ms)
+        s2.add(self.solver.assertions())
+        s2.add(extra)
+        t0 = time.time()
+        r = s2.check()
+        self.stats['solver_s'] += time.time() - t0
+        self.stats['queries'] += 1
+        return r
+
     def _branch_new(self, cond):
-        rt = self._check(cond)
-        rf = self._check(z3.Not(cond))
+        self.solver.set("timeout", min(self.timeout_ms, 8000))
+        try:
+            rt = self._check(cond)
+            rf = self._check(z3.Not(cond))
+        finally:
+            self.solver.set("timeout", self.timeout_ms)
+        if rt == z3.unknown:
+            rt = self._fresh_check(cond)
+        if rf == z3.unknown:
+            rf = self._fresh_check(z3.Not(cond))
         if rt == z3.unknown or rf == z3.unknown:
             raise Inconclusive("branch feasibility unknown")
         if rt == z3.sat and rf == z3.sat:
